@@ -5,7 +5,7 @@ P="$1"; SD="$2"; LOG="$3"; H="${4:-}"
 export GOFLAGS=-mod=mod GOPROXY=off GOSUMDB=off GOTOOLCHAIN=local
 W=$(mktemp -d /tmp/qseed.XXXXXX)
 git -C /repo worktree add -q --detach "$W/r" HEAD || exit 2
-( cd "$W/r" && git apply "$SD/patch.diff" ) || { echo "PATCH-DOES-NOT-APPLY"; git -C /repo worktree remove --force "$W/r"; rm -rf "$W"; exit 2; }
+( cd "$W/r" && git apply "$( [ -f "$SD/patch_rebased.diff" ] && echo "$SD/patch_rebased.diff" || echo "$SD/patch.diff")" ) || { echo "PATCH-DOES-NOT-APPLY"; git -C /repo worktree remove --force "$W/r"; rm -rf "$W"; exit 2; }
 HA=""; [ -n "$H" ] && HA="--harness $H"
 cd /verif && timeout 3000 bin/gclverify check --property "$P" --repo "$W/r" --no-evidence $HA > "$LOG" 2>&1
 cd /; git -C /repo worktree remove --force "$W/r"; rm -rf "$W"
